@@ -391,4 +391,4 @@ def strategy(draw):
 
 
 def subchecks(tier):
-    return [Sub("wrappers", wrapper_case, strategy=strategy, n_quick=2400, n_thorough=60000, shards_quick=4)]
+    return [Sub("wrappers", wrapper_case, strategy=strategy, n_quick=2400, n_thorough=150000, shards_quick=4)]
